@@ -291,11 +291,16 @@ def check_scheduled(W, bs, n_batches, kind, p):
     elif kind == "samples":
         kw = dict(samples=n_batches * bs)
     else:
-        # epochs: 2 epochs (or 1) of a dataset whose length leaves a dropped remainder
+        # epochs: 2 epochs (or 1); dataset_len is the GLOBAL length, every rank sees dataset_len // world_size samples.
+        # 'epochs': drop_last with a dropped remainder; 'epochs_keep': drop_last=False with a per-rank length that is a
+        # multiple of the batch size (full batches only) but a global remainder of 1..world_size-1 samples
         ep = 2 if n_batches % 2 == 0 else 1
         per = n_batches // ep
-        ws = 1 + (n_batches + W) % 2  # world sizes 1 and 2: dataset_len is the global length
-        kw = dict(epochs=ep, dataset_len=(per * bs + (bs - 1)) * ws + (ws - 1), world_size=ws, drop_last=True)
+        ws = 1 + (n_batches + W) % 3  # world sizes 1..3
+        if kind == "epochs":
+            kw = dict(epochs=ep, dataset_len=(per * bs + (bs - 1)) * ws + (ws - 1), world_size=ws, drop_last=True)
+        else:
+            kw = dict(epochs=ep, dataset_len=per * bs * ws + (ws - 1), world_size=ws, drop_last=False)
     saved = kdt_mod.get_worker_info
     kdt_mod.get_worker_info = lambda: Info()
     try:
@@ -353,7 +358,7 @@ def run(run):
     sp = specs(run.tier)
     tasks = [("scale", sp[i:i + 3], factors, maxlen) for i in range(0, len(sp), 3)]
     tasks.append(("observable", None, factors, maxlen))
-    sched = [(W, bs, n, kind) for W in (1, 2, 3, 4) for bs in (1, 2, 3) for n in range(1, 9) for kind in ("updates", "samples", "epochs")]
+    sched = [(W, bs, n, kind) for W in (1, 2, 3, 4) for bs in (1, 2, 3) for n in range(1, 9) for kind in ("updates", "samples", "epochs", "epochs_keep")]
     tasks += [("sched", sched[i:i + 40], factors, maxlen) for i in range(0, len(sched), 40)]
     run.pmap(task, tasks)
     classes, _ = cat.discover()
